@@ -249,6 +249,7 @@ func runMutants(repo string, ms []mutant, par int) []mutantResult {
 
 // runSelfTest is called by the thorough tier for one property.
 func runSelfTest(repo, verif, prop string) interface{} {
+	verifDir = verif
 	var ms []mutant
 	for _, m := range append(mutantTable(), harmlessTable()...) {
 		if m.Prop == prop {
